@@ -10,7 +10,9 @@ ORIENTABLE = ["grid", "lifted", "delaunay", "delaunay-lifted", "icosphere", "ell
               "cylinder", "holes", "two-components", "two-spheres"]
 
 
-def impl_orient(v, t):
+def impl_orient(v, t, it=None):
+    if it is not None:
+        t = np.asarray(t).astype(it)
     m = TriaMesh(v, t)
     r = m.orient_()
     return int(r), np.array(m.t, dtype=np.int64), np.array(m.v, dtype=np.float64)
@@ -54,6 +56,11 @@ class Check(BaseCheck):
                 t = gen.flip_some(rng, t, rng.choice([0.0, 0.1, 0.5, 0.9, 1.0]))
                 t = gen.rotate_rows(rng, t)
             yield dict(v=c["v"], t=t, name=c["name"])
+        # narrow index dtypes on meshes with more than 256 / many vertices (index arithmetic must not overflow)
+        rng = gen.rng_for(self.seed, "c10-dtype")
+        v, t = gen.icosphere(3)
+        for it in ("int16", "int32"):
+            yield dict(v=v, t=gen.rotate_rows(rng, gen.flip_some(rng, t, 0.3)), name="icosphere3", it=it)
         # exhaustive flip patterns of small closed / open complexes
         bases = [("tetra-surface", gen.tetra_surface()), ("grid2x1", gen.grid(2, 1))]
         if not self.quick:
@@ -70,8 +77,13 @@ class Check(BaseCheck):
         fails = []
         for c in self.cases():
             v, t = c["v"], c["t"]
-            r = drv.ask("orient_tri %s %s" % (wire.verts(v), wire.elems(t)))
-            res = core.run_limited(impl_orient, (v, t), 30.0)
+            if c.get("it"):
+                # narrow index dtype: must behave exactly like the int64 run (which other cases tie to the model)
+                ref = core.run_limited(impl_orient, (v, t, None), 60.0)
+                r = "ok %d %s" % (ref[1][0], wire.elems(ref[1][1])) if ref[0] == "ok" else "err " + str(ref[1:2])
+            else:
+                r = drv.ask("orient_tri %s %s" % (wire.verts(v), wire.elems(t)))
+            res = core.run_limited(impl_orient, (v, t, c.get("it")), 60.0)
             if res[0] == "ok":
                 got = "ok %d %s" % (res[1][0], wire.elems(res[1][1]))
             elif res[0] == "err":
@@ -92,7 +104,7 @@ class Check(BaseCheck):
     def oracle(self, case):
         v = np.asarray(case["v"], float); t = np.asarray(case["t"], dtype=np.int64)
         b = brute(len(v), t)
-        res = core.run_limited(impl_orient, (v, t), 30.0)
+        res = core.run_limited(impl_orient, (v, t, case.get("it")), 60.0)
         if not b["manifold"]:
             if not (res[0] == "err" and res[1] == "ValueError"):
                 return core.Violation("non-manifold", "mesh with an edge in more than two triangles not rejected with ValueError: %s" % (res[:2],), case)
